@@ -43,6 +43,11 @@ pub enum TmOp {
     /// a path from the API (kind 0, Source::local) or from the kernel (kind 1, Source::kernel)
     InsertLocal { kind: u8, prefix: u8, attrs: u8, nh: u8 },
     RemoveLocal { kind: u8, prefix: u8 },
+    /// the restart timer of a peer in helper mode expired with LLGR negotiated: its stale routes become
+    /// LLGR-stale and those carrying NO_LLGR are dropped
+    MarkLlgrStale { peer: u8 },
+    /// the LLGR stale time of the peer expired
+    DropLlgrStale { peer: u8 },
 }
 
 #[derive(Clone, Debug, Serialize, Deserialize, PartialEq)]
@@ -110,6 +115,16 @@ pub fn nh_addr(k: u8, v6: bool) -> Nexthop {
 }
 
 pub fn attrs_variant(v: u8) -> Arc<Vec<packet::Attribute>> {
+    if (50..56).contains(&v) {
+        // variant v - 50 with the NO_LLGR community (RFC 9494)
+        let mut attrs = (*attrs_variant(v - 50)).clone();
+        let mut comms: Vec<u8> = attrs.iter().find(|a| a.code() == 8).and_then(|a| a.binary().cloned()).unwrap_or_default();
+        comms.extend_from_slice(&[0xff, 0xff, 0x00, 0x07]);
+        attrs.retain(|a| a.code() != 8);
+        attrs.push(packet::Attribute::new_with_bin(packet::Attribute::COMMUNITY, comms).unwrap());
+        attrs.sort_by_key(|a| a.code());
+        return Arc::new(attrs);
+    }
     if v >= 100 {
         // VPN routes: base variant (v - 100) % 3, route targets by ((v - 100) / 3) % 4: {1}, {2}, {1, 2}, none
         let k = v - 100;
@@ -248,6 +263,14 @@ impl Rig {
                 let src = self.sources[(*peer % N_PEERS) as usize].clone();
                 let counter = self.limits.borrow().as_ref().map(|(_, c)| c[(*peer % N_PEERS) as usize].clone());
                 self.tm.remove_route(src, family, PathNlri { path_id: (*path_id % 2) as u32, nlri }, counter, 2);
+            }
+            TmOp::MarkLlgrStale { peer } => {
+                let src = &self.sources[(*peer % N_PEERS) as usize];
+                self.tm.mark_llgr_stale(src.remote_addr, &[Family::IPV4, Family::IPV6]);
+            }
+            TmOp::DropLlgrStale { peer } => {
+                let src = &self.sources[(*peer % N_PEERS) as usize];
+                self.tm.drop_llgr_stale_families(src.remote_addr, &[Family::IPV4, Family::IPV6]);
             }
             TmOp::InsertLocal { kind, prefix: p, attrs, nh } => {
                 let (family, nlri) = prefix(*p);
